@@ -208,7 +208,12 @@ theorem run_frame (ρ : List FunDef) : ∀ (f : Nat) (j : Job) (s : St), Frame s
         refine withFnCall_frame _ _ (fun t0 => ?_)
         refine bnd_frame _ _ _ (ih _ _) (fun r t => ?_)
         refine bnd_frame _ _ _ (ih _ _) (fun l t2 => ?_)
-        have hclone : Frame t2 (cloneIfNecessary t2 r).2 := Frame.of_eq (stacks_clone _ _)
+        have htag : Frame t2 (tagParamAlias t2 r) := by
+          unfold tagParamAlias
+          split
+          · exact Frame.of_eq rfl
+          · exact Frame.refl t2
+        have hclone : Frame t2 (cloneIfNecessary (tagParamAlias t2 r) r).2 := htag.trans (Frame.of_eq (stacks_clone _ _))
         have hsv : ∀ v, Frame t2 (t2.setVal l v) := fun v => Frame.of_eq rfl
         have hsc : ∀ c, Frame t2 (t2.setCell l c) := fun c => Frame.of_eq rfl
         split
@@ -226,7 +231,7 @@ theorem run_frame (ρ : List FunDef) : ∀ (f : Nat) (j : Job) (s : St), Frame s
               · exact hsv _
               · split
                 · exact hsc _
-                · generalize cloneIfNecessary t2 r = rc at hclone ⊢
+                · generalize cloneIfNecessary (tagParamAlias t2 r) r = rc at hclone ⊢
                   obtain ⟨oc, t3⟩ := rc
                   cases oc <;> (try simp only []) <;> first | exact hclone | exact hclone.trans (Frame.of_eq rfl)
               · exact hsv _
